@@ -33,7 +33,8 @@ LEVEL_TEXT = ("Machine-checked Coq theorems over an executable model of the cast
               "sets and loaded JSON; DECIMAL(p,s), 1<=p<=38, s<=28: every decimal of at most p digits and at most s fractional digits comes back "
               "numerically equal, and at exponent -s when its integer part fits p-s digits (the unconditional exponent claim is refuted with a "
               "witness); DATE/TIMESTAMP str()/isoformat() renderings via the parse_iso round trip proved for C08; DOUBLE under float(repr x) = x; "
-              "class preservation for every modelled input. The model is tied to orso/types.py, DecimalFactory and FlatColumn by running the real "
+              "class preservation for every modelled input; FlatColumn(default=x).default is the cast of x with the column's own length / precision / "
+              "scale / element type for every typed column and every x (untyped columns keep x). The model is tied to orso/types.py, DecimalFactory and FlatColumn by running the real "
               "casts on native values, str, UTF-8 bytes, padded text, the (precision, scale) grid, big integers, float corner cases and arrays of "
               "every element type and evaluating the model on the same inputs inside Coq; a literal oracle cast(render(v)) == v (type-strict) "
               "supplies replayable failing inputs.")
@@ -42,9 +43,7 @@ LEVEL_NOTE = ("Trusted: Coq kernel + vm_compute; the hand-written models of int(
               "(and its proofs) for parse_iso, int(str) and UTF-8. Oracles (Section variables instantiated per case with what the library "
               "returned): float(str), float(bytes), repr(float), orjson.loads, orjson.dumps, str() of containers. Not modelled: dict values, "
               "numpy / pyarrow scalars, TIME and INTERVAL parsers (null only), tz-aware datetimes; int(Decimal) with |exponent| > 5000 is not "
-              "evaluated in Coq. FlatColumn defaults: proved only that a truthy default is cast without keyword arguments and a falsy one not "
-              "at all (C07_column_default_partial + two _refuted theorems); candidate findings F-C07-3/4/5 are guarded by input class "
-              "(see notes/C07.md).")
+              "evaluated in Coq. Known finding F-C07-5 (JSON integers outside 64 bits) is guarded by input class (see notes/C07.md).")
 DESIGN_REF = "DESIGN.md section 8, C07"
 COQ_IMPORTS = ("From Coq Require Import ZArith NArith.\nFrom Orso Require Import Gen.C08_Tables Model.C08 Gen.C07_Tables Model.C07.\n"
                "Open Scope Z_scope.")
